@@ -27,3 +27,26 @@ pub mod executor;
  // Export consumer group commands
 
 // Export unified command processing
+
+
+/// Integer arguments in Redis' own syntax: an optional '-', then decimal digits without a
+/// leading zero (except "0" itself); no '+', no "-0", no blanks. Rust's `str::parse` accepts
+/// `+5`, `007` and `-0`, which Redis refuses as "not an integer".
+pub trait RedisInt {
+    fn parse_redis<T: std::str::FromStr>(&self) -> std::result::Result<T, ()>;
+}
+
+impl RedisInt for str {
+    fn parse_redis<T: std::str::FromStr>(&self) -> std::result::Result<T, ()> {
+        let digits = self.strip_prefix('-').unwrap_or(self);
+        let negative = digits.len() != self.len();
+        if digits.is_empty()
+            || !digits.bytes().all(|b| b.is_ascii_digit())
+            || (digits.len() > 1 && digits.starts_with('0'))
+            || (negative && digits == "0")
+        {
+            return Err(());
+        }
+        self.parse::<T>().map_err(|_| ())
+    }
+}
